@@ -55,7 +55,10 @@ def run(ctx):
     rh = ctx.rule('R-HANDOFF', 'event awaiters: no field touched after hand-off', minimum=0)
     rsh = ctx.rule('R-SHAPE', 'SetImpl calls every waiter of the detached list exactly once and loses none (shape '
                    'analysis over list segments, all lengths)', minimum=1)
+    rcf = ctx.rule('R-CASFRESH', 'every retry of a compare-exchange re-tests the refreshed expected value against the '
+                   'sentinels the first attempt tested', minimum=1)
     for cfg, fb in sorted(fbs.items()):
+        lib_order.check_cas_fresh(ctx, fb, rcf, lambda f: 'OneShotEvent' in f.qn or 'one_shot_event' in f.file)
         lib_shape.check(ctx, fb, rsh, lambda qn: 'SetImpl' in qn and 'BaseCore' not in qn, 1)
         lib_order.check(ctx, fb, cfg, [HEAD, COUNT], rw, ro, rc)
         lib_order.check_counter_reads(ctx, fb, ro)
